@@ -382,6 +382,7 @@ def _run(ctx, violations, cov, deferred):
         "transitions": total,
         "traces_validated_against_impl": n_gen + n_rec,
         "generated_revisits_on_same_table": rep.get("revisits", 0),
+        "generated_visits_under_overshooting_loca": rep.get("overshoots", 0),
         "samples": [sample_case] + ([{"case": sample_rec["case"], "root": sample_rec["a"]["root"],
                                       "cmds_first": sample_rec["o"]["cmds"][:6]}] if sample_rec else []),
         "generated_visits_not_ok": rep.get("visits_not_ok", 0),
@@ -402,9 +403,11 @@ def _run(ctx, violations, cov, deferred):
 
     # the remaining guards concern the tool itself (specification, harness inputs, driver); they are raised only
     # now, and run() lets violations win over them
-    if n_gen != n_cases[0] + rep.get("revisits", 0) or total != n_gen + n_rec + len(planted):
-        raise vlib.ToolError("judge consumed %d events, expected %d generated cases + %d revisits + %d recorded + %d planted" % (
-            total, n_cases[0], rep.get("revisits", 0), n_rec, len(planted)))
+    if n_gen != n_cases[0] + rep.get("revisits", 0) + rep.get("overshoots", 0) or total != n_gen + n_rec + len(planted):
+        raise vlib.ToolError("judge consumed %d events, expected %d generated cases + %d revisits + %d overshoot visits + %d recorded + %d planted" % (
+            total, n_cases[0], rep.get("revisits", 0), rep.get("overshoots", 0), n_rec, len(planted)))
+    if rep.get("overshoots", 0) == 0:
+        raise vlib.ToolError("vacuity: no generated case was visited under an overshooting loca (Dev_LocaOvershoot)")
     seen_self = {m["case"] for m in mism if m["case"].startswith("selftest-")}
     want_self = {k for k, rejected in SELFTEST.items() if rejected}
     if seen_self != want_self:
